@@ -74,6 +74,9 @@ def check(ix, rep):
                              'operator looked up by a name taken from the data set without membership test: a variable '
                              'that is declared (free_vars) but not used by the formula has no operator -> KeyError',
                              ld.lineno)
+            if name == 'set_variable_to_ast_from_dataset' and mon.kind == 'discrete-online':
+                from sa.rules import truthy as _truthy
+                _truthy.check_data_entry(ix, rep, f, mon.kind)
             # inputs in any order: the data set is only iterated, never indexed by position
             if name == 'set_variable_to_ast_from_dataset':
                 dparam = f.node.args.args[1].arg
